@@ -25,7 +25,8 @@ Traces == TLCGet(1)
 VARIABLES blk, tid
 vars == <<blk, tid>>
 
-GaussSeqOK(c) == \A i \in DOMAIN c : Len(c[i]) = 2 /\ AbsI(c[i][1]) <= 99 /\ AbsI(c[i][2]) <= 99
+\* 32-bit safety of N2: entries up to 99, except that the single degree-0 coefficient may be as large as 46000 (46000^2 + 99^2 < 2^31)
+GaussSeqOK(c) == \A i \in DOMAIN c : Len(c[i]) = 2 /\ AbsI(c[i][1]) <= (IF i = 1 THEN 46000 ELSE 99) /\ AbsI(c[i][2]) <= 99
 WellFormed(t) == /\ t.what \in {"N", "P", "Power", "Kinds"}
                  /\ GaussSeqOK(t.c) /\ SquareLen(t.c) /\ DegOf(t.c) = t.L /\ t.L \in 0..26
                  /\ \A i \in DOMAIN t.events : t.events[i].ev \in {"Word", "Perturb", "Zero", "Rotate"}
